@@ -314,3 +314,24 @@ def t_ravel_contiguity(u):
     d = many[1:3].ravel()        # whole rows: a view
     d[0] = 1000
     return (many.sum() + one.sum()) * u
+
+
+def _twice(v):
+    return 2 * v
+
+
+def _method_like(self, v):
+    return self.k * v
+
+
+class _Desc:
+    k = 5
+    plain = _method_like
+    static = staticmethod(_twice)
+    made = classmethod(lambda cls, v: cls.k + v)
+    prop = property(lambda self: self.k * 100)
+
+
+def t_descriptor_calls(u):
+    d = _Desc()
+    return (d.plain(1) + d.static(10) + d.made(1000) + d.prop + _Desc.static(1)) * u
